@@ -267,4 +267,101 @@ theorem count_single_eq_len (s : Bytes) (c : UInt8) :
       rw [List.count_eq_length]; intro b hb; simp at h; exact (h b hb).symm
     omega
 
+/-! ### strings.LastIndexByte -/
+
+theorem lastIndexByteAux_not_mem (c : UInt8) : ∀ (s : Bytes) (k : Nat) (acc : Int), c ∉ s →
+    lastIndexByteAux c s k acc = acc
+  | [], _, _, _ => rfl
+  | x :: xs, k, acc, h => by
+    have h1 : (x == c) = false := by simp; exact fun e => h (by simp [e])
+    have h2 : c ∉ xs := fun e => h (by simp [e])
+    simp [lastIndexByteAux, h1, lastIndexByteAux_not_mem c xs (k + 1) acc h2]
+
+theorem lastIndexByteAux_split (c : UInt8) (suf : Bytes) (hs : c ∉ suf) : ∀ (pre : Bytes) (k : Nat) (acc : Int),
+    lastIndexByteAux c (pre ++ c :: suf) k acc = ((k + pre.length : Nat) : Int)
+  | [], k, acc => by
+    simp [lastIndexByteAux, lastIndexByteAux_not_mem c suf (k + 1) _ hs]
+  | x :: xs, k, acc => by
+    simp only [List.cons_append, lastIndexByteAux, lastIndexByteAux_split c suf hs xs (k + 1), List.length_cons]
+    congr 1; omega
+
+/-- a byte that occurs in `s` has a last occurrence -/
+theorem exists_last_split (c : UInt8) : ∀ (s : Bytes), c ∈ s → ∃ pre suf, s = pre ++ c :: suf ∧ c ∉ suf
+  | [], h => by simp at h
+  | x :: xs, h => by
+    by_cases hx : c ∈ xs
+    · obtain ⟨pre, suf, he, hs⟩ := exists_last_split c xs hx
+      exact ⟨x :: pre, suf, by simp [he], hs⟩
+    · have : c = x := by simpa [hx] using h
+      subst this
+      exact ⟨[], xs, rfl, hx⟩
+
+theorem lastIndexByte_not_mem (s : Bytes) (c : UInt8) (h : c ∉ s) :
+    lastIndexByte s ((c.toNat : Nat) : Int) = -1 := by
+  simp [lastIndexByte, mkByte_byte, lastIndexByteAux_not_mem c s 0 _ h]
+
+theorem lastIndexByte_split (pre suf : Bytes) (c : UInt8) (h : c ∉ suf) :
+    lastIndexByte (pre ++ c :: suf) ((c.toNat : Nat) : Int) = (pre.length : Int) := by
+  simp [lastIndexByte, mkByte_byte, lastIndexByteAux_split c suf h pre 0]
+
+/-- the part after the last `c`, computed on the reversed string as the models do -/
+theorem reverse_takeWhile_split (pre suf : Bytes) (c : UInt8) (h : c ∉ suf) :
+    ((pre ++ c :: suf).reverse.takeWhile (· != c)).reverse = suf := by
+  have h1 : ∀ x ∈ suf.reverse, (x != c) = true := by
+    intro x hx; simp at hx ⊢; intro e; subst e; exact h hx
+  simp only [List.reverse_append, List.reverse_cons, List.append_assoc, List.singleton_append]
+  rw [List.takeWhile_append_of_pos h1]
+  simp
+
+/-! ### first and last byte -/
+
+theorem idx_zero_eq_head (s : Bytes) (hs : s ≠ []) : idx s 0 = .ok ((((s.head hs).toNat : Nat)) : Int) := by
+  cases s with
+  | nil => exact absurd rfl hs
+  | cons c t => simp
+
+theorem idx_last (s : Bytes) (hs : s ≠ []) :
+    idx s (len s - 1) = .ok ((((s.getLast hs).toNat : Nat)) : Int) := by
+  have hl : 0 < s.length := List.length_pos_iff.mpr hs
+  have e : len s - 1 = ((s.length - 1 : Nat) : Int) := by simp [len_eq]; omega
+  rw [e, idx_natCast (by omega), List.getLast_eq_getElem]
+
+/-- `s[len(s)-1] == c` on a non-empty string -/
+theorem last_byte_test (s : Bytes) (hs : s ≠ []) (c : UInt8) :
+    decide ((((s.getLast hs).toNat : Nat) : Int) = ((c.toNat : Nat) : Int)) = (s.getLast? == some c) := by
+  rw [List.getLast?_eq_some_getLast hs, byte_toInt_inj]
+  rw [Bool.eq_iff_iff]; simp
+
+theorem first_byte_test (s : Bytes) (hs : s ≠ []) (c : UInt8) :
+    decide ((((s.head hs).toNat : Nat) : Int) = ((c.toNat : Nat) : Int)) = (s.head? == some c) := by
+  rw [List.head?_eq_some_head hs, byte_toInt_inj]
+  rw [Bool.eq_iff_iff]; simp
+
+/-! ### strings.Contains with a longer needle: an occurrence at some offset -/
+
+theorem indexAux_nonneg_iff (sub : Bytes) (hsub : sub ≠ []) : ∀ (s : Bytes) (k : Nat),
+    0 ≤ indexAux sub s k ↔ ∃ j, j ≤ s.length ∧ isPrefixOfB sub (s.drop j) = true
+  | [], k => by
+    have : sub.isEmpty = false := by cases sub <;> simp at hsub ⊢
+    have h2 : isPrefixOfB sub [] = false := by cases sub <;> simp [isPrefixOfB] at hsub ⊢
+    simp [indexAux, this, h2]
+  | x :: xs, k => by
+    rw [indexAux]
+    by_cases hp : isPrefixOfB sub (x :: xs) = true
+    · simp only [hp, if_true]
+      constructor
+      · intro _; exact ⟨0, by simp, by simpa using hp⟩
+      · intro _; omega
+    · simp only [hp, Bool.false_eq_true, if_false, indexAux_nonneg_iff sub hsub xs (k + 1)]
+      constructor
+      · rintro ⟨j, hj, h⟩; exact ⟨j + 1, by simp; omega, by simpa using h⟩
+      · rintro ⟨j, hj, h⟩
+        cases j with
+        | zero => simp at h; exact absurd h hp
+        | succ j => exact ⟨j, by simp at hj; omega, by simpa using h⟩
+
+theorem contains_iff (s sub : Bytes) (hsub : sub ≠ []) :
+    contains s sub = true ↔ ∃ j, j ≤ s.length ∧ isPrefixOfB sub (s.drop j) = true := by
+  simp [contains, index, indexAux_nonneg_iff sub hsub]
+
 end ModVerif.GoRtStr
